@@ -48,8 +48,8 @@ static void learn_ids15(void) {
  * elapsed classes: 0, t-1, t, t+1, 10t, 31 s, and long silences around the 15/16/32-bit boundaries of a seconds counter;
  * clock origins (reading of the seconds clock when the state was entered): ordinary, 0, and readings whose low 16 / 31 / 32 bits are all ones */
 #define NEL 12
-#define NORG 6
-static const uint64_t ORG_S[NORG] = {1000ull, 0ull, 65535ull, 196607ull, 2147483647ull, 4294967295ull};
+#define NORG 7      /* index 6: the automaton under test is the SECOND one the process creates, 5 s after a first one (another interface) */
+static const uint64_t ORG_S[NORG] = {1000ull, 0ull, 65535ull, 196607ull, 2147483647ull, 4294967295ull, 1000ull};
 static long long elapsed_of(int idx, long t) {
     switch (idx) { case 0: return 0; case 1: return t - 1; case 2: return t; case 3: return t + 1; case 4: return 10 * t; case 5: return 31;
                    case 6: return 32767; case 7: return 32768; case 8: return 65535; case 9: return 65536; case 10: return 65536 + t; default: return 4294967297ll; }
@@ -63,6 +63,7 @@ static void step15(int code) {
     int oi = code % NORG, ei = (code / NORG) % NEL, e = (code / NORG / NEL) % 8, s = code / NORG / NEL / 8;
     set_origin(oi);
     vf_world_reset();
+    if (oi == 6) { if (!init_automata_session()) vf_harness_error("init_automata_session failed"); W.now_ms += 5000; }
     automata *a = init_automata_session();
     if (ENTRY15[s] >= 0) switch_state_session(a, ENTRY15[s], "enter");
     long t = a->states_table[a->current_state].timeout;
@@ -158,6 +159,7 @@ static void step14(int code) {
     int oi = code % NORG, ei = (code / NORG) % NEL, in = (code / NORG / NEL) % 384 - 128, s = code / NORG / NEL / 384;
     set_origin(oi);
     vf_world_reset();
+    if (oi == 6) { if (!init_automata_mapping()) vf_harness_error("init_automata_mapping failed"); W.now_ms += 5000; }
     automata *a = enter14(s);
     long t = a->states_table[a->current_state].timeout;
     if (s != Q_IDLE && (t < 1 || t > 30)) {
@@ -310,7 +312,7 @@ int main(int argc, char **argv) {
         }
         { extern uint64_t vf_clock_origin; vf_clock_origin = 1000000ull; }
         R.evaluations = evals; R.transitions = evals; R.states = mode == 15 ? S_N : Q_N; R.exhaustive = 1;
-        if (mode == 15) vf_sample("4 states x events 0..7 x elapsed {0,t-1,t,t+1,10t,31,32767,32768,65535,65536,65536+t,2^32+1 s} x entry clock {1000,0,65535,196607,2^31-1,2^32-1 s}: e.g. (Complete, reset, 0 s) must go to Nascent");
+        if (mode == 15) vf_sample("4 states x events 0..7 x elapsed {0,t-1,t,t+1,10t,31,32767,32768,65535,65536,65536+t,2^32+1 s} x entry clock {1000,0,65535,196607,2^31-1,2^32-1 s, and as the second automaton of the process}: e.g. (Complete, reset, 0 s) must go to Nascent");
         else vf_sample("3 states x inputs -128..255 x the same 12 elapsed classes x 6 entry clocks: e.g. (Command, input 2, 0 s) must go to Emit; (Command, input 6, 0 s) must stay");
     } else {
         /* two clock origins: the time-abstracted key is only sound if behaviour is translation invariant */
